@@ -1,6 +1,7 @@
 import SgVerif.C26.Lemmas
 import SgVerif.C26.FatTreeLemmas
 import SgVerif.C26.DragonflyLemmas
+import SgVerif.C26.TorusLinks
 /-
 C26 — Structured topologies follow their routing algorithms.  Property theorems (nothing else in this file).
 Every theorem is for ALL shapes (any number of dimensions, any sizes >= 1) and all node pairs: no enumeration.
@@ -101,6 +102,172 @@ example : ({ dims := [4, 4], lb := false, lim := false } : Torus).hops 5 15
 example : ({ dims := [4], lb := false, lim := false } : Torus).hops 2 0 = some [⟨2, 1, 0, false⟩, ⟨1, 0, 0, false⟩] := by decide
 example : ({ dims := [4], lb := false, lim := false } : Torus).hops 3 1 = some [⟨3, 0, 0, true⟩, ⟨0, 1, 0, true⟩] := by decide
 
+
+/-! ### Torus: the LINKS returned by `get_local_route` (the `private_links_` position arithmetic)
+
+`Torus.route = routeWith t t.seal`: the table is the sequence of `try_emplace` calls of `do_seal` (`fill_leaf_from_cb`'s
+loopback / limiter entries, `create_torus_links` entries at `node_pos_with_loopback_limiter(id) + j`, with
+`num_links_per_node_` growing while the first leaf is filled), read back by `get_uplink_from` / `get_downlink_to` at the
+positions `get_local_route` computes.  All theorems: every well-formed shape (incl. dimensions of size 1, any number of
+dimensions), every loopback/limiter configuration, every pair of nodes. -/
+
+/-- closed form of the link list: for every hop of the dimension-ordered walk, the limiter of the current node (when
+limiters are configured) then the cable — `hopCable`: going right the UP half of `<zone>_link_from_<cur>_to_<next>`, going
+left the DOWN half of `<zone>_link_from_<next>_to_<cur>` — and at the end the limiter of the destination -/
+def Torus.specLinks (t : Torus) (src dst : Nat) : List TLink := linksOfHops t.lim dst (t.specHops src dst)
+
+/-- **the links of the route**: sealing then routing never throws (`.at`) and yields exactly the closed form, for every
+pair that is not answered by the loopback shortcut -/
+theorem torus_route_links (t : Torus) (hwf : t.WF) (src dst : Nat) (hs : src < t.tot) (hd : dst < t.tot)
+    (hnl : ¬ (src = dst ∧ t.lb = true)) : t.route src dst = some (t.specLinks src dst) :=
+  route_links t hwf src dst hs hd hnl
+
+/-- **loopback**: with a loopback callback, `src -> src` is the loopback link of `src` and nothing else (no limiter) -/
+theorem torus_loopback (t : Torus) (hwf : t.WF) (src : Nat) (hs : src < t.tot) (hlb : t.lb = true) :
+    t.route src src = some [TLink.loopback src] :=
+  route_loopback t hwf src hs hlb
+
+/-- without loopback callback, `src -> src` has no cable: only the (receiver) limiter of `src` when limiters are configured -/
+theorem torus_self_without_loopback (t : Torus) (hwf : t.WF) (src : Nat) (hs : src < t.tot) (hlb : t.lb = false) :
+    t.route src src = some (if t.lim then [TLink.limiter src] else []) := by
+  rw [torus_route_links t hwf src src hs hs (by simp [hlb])]
+  have : t.specHops src src = [] := specR_self _ _ (torus_tri_facts t hwf src src).1
+  simp [Torus.specLinks, this, linksOfHops]
+
+/-- **every link leaves the current node**: reading the route from `src`, each cable is the UP half of a link declared by
+the node the walk is on, or the DOWN half of a link declared towards it, each limiter is the limiter of the node the walk
+is on, and the walk ends on `dst` (`linkWalk` returns `none` as soon as a link does not fit) -/
+theorem torus_links_leave_current_node (t : Torus) (hwf : t.WF) (src dst : Nat) (hs : src < t.tot) (hd : dst < t.tot)
+    (hnl : ¬ (src = dst ∧ t.lb = true)) :
+    ∃ r, t.route src dst = some r ∧ linkWalk src r = some dst := by
+  obtain ⟨h1, _, h3, _, _⟩ := torus_tri_facts t hwf src dst
+  refine ⟨_, torus_route_links t hwf src dst hs hd hnl, ?_⟩
+  exact linkWalk_hops t.lim _ src dst (specR_chain _ src dst h1 (by rw [h3]; exact hs) (by rw [h3]; exact hd))
+
+/-- **the cables are the links between consecutive nodes of the chain `src .. dst`, in order**: the cable links of the
+route are, hop by hop, `hopCable` of the hops computed by the `while` loop, which chain from `src` to `dst` -/
+theorem torus_links_chain (t : Torus) (hwf : t.WF) (src dst : Nat) (hs : src < t.tot) (hd : dst < t.tot)
+    (hnl : ¬ (src = dst ∧ t.lb = true)) :
+    ∃ hops r, t.hops src dst = some hops ∧ t.route src dst = some r ∧ Chain src hops dst ∧
+      r.filter TLink.isCable = hops.map hopCable := by
+  obtain ⟨h1, _, h3, _, _⟩ := torus_tri_facts t hwf src dst
+  exact ⟨_, _, torus_hops_spec t hwf src dst hs hd, torus_route_links t hwf src dst hs hd hnl,
+    specR_chain _ src dst h1 (by rw [h3]; exact hs) (by rw [h3]; exact hd), linksOfHops_cables _ _ _⟩
+
+/-- **length**: the route has `Σ_j min(f_j, d_j - f_j)` cable links; with limiters one limiter before each cable and one
+at the end, without limiters nothing else -/
+theorem torus_links_length (t : Torus) (hwf : t.WF) (src dst : Nat) (hs : src < t.tot) (hd : dst < t.tot)
+    (hnl : ¬ (src = dst ∧ t.lb = true)) :
+    ∃ r, t.route src dst = some r ∧ (r.filter TLink.isCable).length = (t.minDist src dst).sum ∧
+      r.length = if t.lim then 2 * (t.minDist src dst).sum + 1 else (t.minDist src dst).sum := by
+  obtain ⟨h1, h2, _, _, _⟩ := torus_tri_facts t hwf src dst
+  have hlen : (t.specHops src dst).length = (t.minDist src dst).sum := by
+    rw [Torus.specHops, specR_length _ _ h2, distList_eq_minList _ _ _ h1 h2]; rfl
+  refine ⟨_, torus_route_links t hwf src dst hs hd hnl, ?_, ?_⟩
+  · rw [Torus.specLinks, linksOfHops_cables, List.length_map, hlen]
+  · rw [Torus.specLinks, linksOfHops_length, hlen]
+
+/-- **limiter placement**: without limiter callback the route is the cables only; with one, it is
+`limiter(cur), cable` for every hop and `limiter(dst)` at the end — so the limiters of the route are, in order, those of
+the nodes `src = n0, n1, ..., dst` of the chain (the destination's appears once) -/
+theorem torus_limiter_placement (t : Torus) (hwf : t.WF) (src dst : Nat) (hs : src < t.tot) (hd : dst < t.tot)
+    (hnl : ¬ (src = dst ∧ t.lb = true)) :
+    ∃ hops r, t.hops src dst = some hops ∧ t.route src dst = some r ∧
+      (t.lim = false → r = hops.map hopCable) ∧
+      (t.lim = true → r = hops.flatMap (fun h => [TLink.limiter h.cur, hopCable h]) ++ [TLink.limiter dst]) ∧
+      r.filter TLink.isLimiter = (if t.lim then hops.map (fun h => TLink.limiter h.cur) ++ [TLink.limiter dst] else []) := by
+  refine ⟨_, _, torus_hops_spec t hwf src dst hs hd, torus_route_links t hwf src dst hs hd hnl, ?_, ?_,
+    linksOfHops_limiters _ _ _⟩
+  · intro hl
+    have : hopSegment false = fun h => [hopCable h] := by funext h; simp [hopSegment]
+    simp [Torus.specLinks, linksOfHops, hl, this, List.map_eq_flatMap]
+  · intro hl
+    have : hopSegment true = fun h => [TLink.limiter h.cur, hopCable h] := by funext h; simp [hopSegment]
+    simp [Torus.specLinks, linksOfHops, hl, this]
+
+/-- **loopback placement**: for EVERY pair, a loopback link occurs in the route iff `src = dst` and a loopback callback
+is set, and then it is the loopback of `src` (and by `torus_loopback` the whole route) -/
+theorem torus_loopback_placement (t : Torus) (hwf : t.WF) (src dst : Nat) (hs : src < t.tot) (hd : dst < t.tot) :
+    ∃ r, t.route src dst = some r ∧ ∀ id, TLink.loopback id ∈ r ↔ (src = dst ∧ t.lb = true ∧ id = src) := by
+  by_cases hl : src = dst ∧ t.lb = true
+  · obtain ⟨rfl, hlb⟩ := hl
+    refine ⟨_, torus_loopback t hwf src hs hlb, ?_⟩
+    intro id; simp [hlb]
+  · refine ⟨_, torus_route_links t hwf src dst hs hd hl, ?_⟩
+    intro id
+    constructor
+    · intro hm
+      have : TLink.loopback id ∈ (t.specLinks src dst).filter TLink.isLoopback :=
+        List.mem_filter.mpr ⟨hm, rfl⟩
+      rw [Torus.specLinks, linksOfHops_no_loopback] at this
+      simp at this
+    · intro h; exact absurd ⟨h.1, h.2.1⟩ hl
+
+/-- **the `private_links_` table built by `do_seal`**: the counters end as `dims.size() + (loopback?1:0) + (limiter?1:0)`
+(although they grow while the first leaf is filled), and for every leaf `i` the position `node_pos(i)` holds its loopback,
+`node_pos_with_loopback(i)` its limiter, `node_pos_with_loopback_limiter(i) + j` the two halves of the link it declares
+towards its neighbour along dimension `j` (`Torus.neighbour` = the `neighbor_rank_id` formula) — no entry of another leaf
+shadows them (`try_emplace` keeps the first writer; blocks of different leaves are disjoint) -/
+theorem torus_private_links_table (t : Torus) (hwf : t.WF) (i : Nat) (hi : i < t.tot) :
+    t.seal.1 = { numLinks := t.dims.length + (if t.lb then 1 else 0) + (if t.lim then 1 else 0), hasLb := t.lb, hasLim := t.lim } ∧
+    (t.lb = true → Entries.at t.seal.2 (t.seal.1.nodePos i) = some (TLink.loopback i, TLink.loopback i)) ∧
+    (t.lim = true → Entries.at t.seal.2 (t.seal.1.nodePosLb i) = some (TLink.limiter i, TLink.limiter i)) ∧
+    (∀ j, j < t.dims.length → Entries.at t.seal.2 (t.seal.1.nodePosLbLim i + j)
+        = (t.neighbour i j).map (fun nb => (TLink.cable i nb true, TLink.cable i nb false))) := by
+  rw [seal_eq t (prod_pos _ hwf)]
+  exact ⟨rfl, sealed_table t i hi⟩
+
+/-- **every cable of the route is a declared link between consecutive nodes**: for each hop of the route (whose cables are
+`hops.map hopCable` by `torus_links_chain`), going right `next` is the neighbour that `cur` declared a link to in the hop's
+dimension, going left `cur` is the neighbour that `next` declared a link to -/
+theorem torus_links_declared (t : Torus) (hwf : t.WF) (src dst : Nat) (hs : src < t.tot) (hd : dst < t.tot) :
+    ∃ hops, t.hops src dst = some hops ∧ ∀ h ∈ hops, h.dim < t.dims.length ∧
+      (if h.up then t.neighbour h.cur h.dim = some h.next else t.neighbour h.next h.dim = some h.cur) := by
+  obtain ⟨_, _, _, h4, h5⟩ := torus_tri_facts t hwf src dst
+  have hh := torus_hops_spec t hwf src dst hs hd
+  refine ⟨_, hh, ?_⟩
+  intro h hm
+  apply hop_declared t dst (t.tri src dst) h4 h5 h
+  unfold Torus.hops at hh
+  exact hopsLoop_mem_scan dst _ _ _ _ hh h hm
+
+/-- non-vacuity: 4x4 torus with loopback and limiter callbacks, 5 -> 15 (ties in both dimensions: 4 UP cables, each
+preceded by the limiter of the node it leaves, then the limiter of 15) -/
+example : ({ dims := [4, 4], lb := true, lim := true } : Torus).route 5 15
+    = some [.limiter 5, .cable 5 6 true, .limiter 6, .cable 6 7 true, .limiter 7, .cable 7 11 true,
+            .limiter 11, .cable 11 15 true, .limiter 15] := by decide
+/-- going left: [3,2] torus, 5 -> 0 is (2,1) -> (0,0): dimension 0 goes right through the wrap-around (UP half of the link
+declared by 5 towards 3), dimension 1 (size 2, coordinate 1 -> 0) goes LEFT: the DOWN half of the link declared by the NEXT
+node 0 towards 3 -/
+example : ({ dims := [3, 2], lb := true, lim := true } : Torus).route 5 0
+    = some [.limiter 5, .cable 5 3 true, .limiter 3, .cable 0 3 false, .limiter 0] := by decide
+example : ({ dims := [3, 2], lb := true, lim := true } : Torus).specLinks 5 0
+    = [.limiter 5, .cable 5 3 true, .limiter 3, .cable 0 3 false, .limiter 0] := by decide
+example : ({ dims := [4], lb := false, lim := false } : Torus).route 2 0
+    = some [.cable 1 2 false, .cable 0 1 false] := by decide
+/-- loopback shortcut, and the same pair without loopback callback -/
+example : ({ dims := [3, 2], lb := true, lim := true } : Torus).route 4 4 = some [.loopback 4] := by decide
+example : ({ dims := [3, 2], lb := false, lim := true } : Torus).route 4 4 = some [.limiter 4] := by decide
+example : ({ dims := [3, 2], lb := false, lim := false } : Torus).route 4 4 = some [] := by decide
+/-- the hypotheses of the theorems are met by these instances -/
+example : ({ dims := [3, 2], lb := true, lim := true } : Torus).WF ∧
+    (5 : Nat) < ({ dims := [3, 2], lb := true, lim := true } : Torus).tot ∧
+    ¬ ((5 : Nat) = 0 ∧ ({ dims := [3, 2], lb := true, lim := true } : Torus).lb = true) := by
+  refine ⟨by intro d hd; simp at hd; omega, by decide, by decide⟩
+example : linkWalk 5 [.limiter 5, .cable 5 3 true, .limiter 3, .cable 0 3 false, .limiter 0] = some 0 := by decide
+/-- a link that does not leave the current node is refused by `linkWalk` -/
+example : linkWalk 2 [.cable 0 2 true] = none := by decide
+/-- the table of the [3,2] torus with both callbacks: 4 positions per node; node 2 owns 8..11 -/
+example : (({ dims := [3, 2], lb := true, lim := true } : Torus).seal.1.numLinks = 4) ∧
+    Entries.at ({ dims := [3, 2], lb := true, lim := true } : Torus).seal.2 8 = some (.loopback 2, .loopback 2) ∧
+    Entries.at ({ dims := [3, 2], lb := true, lim := true } : Torus).seal.2 9 = some (.limiter 2, .limiter 2) ∧
+    Entries.at ({ dims := [3, 2], lb := true, lim := true } : Torus).seal.2 10 = some (.cable 2 0 true, .cable 2 0 false) ∧
+    Entries.at ({ dims := [3, 2], lb := true, lim := true } : Torus).seal.2 11 = some (.cable 2 5 true, .cable 2 5 false) := by
+  decide
+example : ({ dims := [3, 2], lb := true, lim := true } : Torus).neighbour 2 0 = some 0 ∧
+    ({ dims := [3, 2], lb := true, lim := true } : Torus).neighbour 0 1 = some 3 := by decide
+/-- a one-node torus with a dimension of size 1 -/
+example : ({ dims := [1], lb := true, lim := true } : Torus).route 0 0 = some [.loopback 0] := by decide
 
 /-! ## Star (StarZone::get_local_route) -/
 
